@@ -4,7 +4,7 @@ C16 — the eight-bit round trip on IEEE binary64, decided by the kernel over al
 Kept in a file of its own: ≈ 40 s of kernel evaluation, rebuilt only when `norm8`/`denorm*` change.
 These are proofs of the finite claim (the property's own quantifier: all 8-bit values).
 -/
-import MenpoModel.Core.C16
+import MenpoModel.Core.C16Pix
 
 namespace MenpoModel.C16
 
